@@ -575,7 +575,7 @@ theorem normGo_on_stack {cs : List Comp} (hroot : Comp.root ∉ cs) {r0 : Bool} 
 theorem trimL_reals {l : List Bytes} (h : ∀ n ∈ l, RealName n) : trimL l = l := by
   cases l with
   | nil => rfl
-  | cons a t => simp [trimL, List.dropWhile_cons, isSkip_real (h a (by simp))]
+  | cons a t => simp [trimL, isSkip_real (h a (by simp))]
 
 theorem hasRoot_render_true (names : List Bytes) : hasRoot (render ⟨true, names⟩) = true := by
   simp [render, hasRoot]
